@@ -30,6 +30,7 @@ structure CmdS where
   deprecated : Bool
   interspersed : Bool
   noFlagParse : Bool
+  whitelist : Bool := false
   flags : List FlagS
   npos : Nat
   posAny : Bool
@@ -48,7 +49,7 @@ def FlagS.fork (f : FlagS) : Bool := f.nargs != 0 || (f.delim != "" && f.delim !
 
 def parseCmdS (j : Json) : CmdS :=
   { name := jstr (jget j "name"), aliases := (jarr j "aliases").toList.map jstr, parent := jint j "parent", hidden := jbool j "hidden",
-    deprecated := jbool j "deprecated", interspersed := jbool j "interspersed", noFlagParse := jbool j "disableFlagParsing",
+    deprecated := jbool j "deprecated", interspersed := jbool j "interspersed", noFlagParse := jbool j "disableFlagParsing", whitelist := jbool j "whitelist",
     flags := (jarr j "flags").toList.map parseFlagS, npos := jnat j "npos", posAny := jbool j "posAny", ndash := jnat j "ndash",
     dashAny := jbool j "dashAny" }
 
@@ -61,7 +62,7 @@ def toPFlag (f : FlagS) : Spec.Pflag.PFlag :=
   { name := f.name.toList, short := f.short.toList.head?,
     kind := if f.kind == "bool" then .bool else if f.kind == "count" then .count
             else if f.kind == "stringSlice" then .stringSlice else if f.kind == "optString" then .optString
-            else if f.kind == "stringArray" then .stringArray else if f.kind == "ipNetSlice" then .ipNetSlice else .string }
+            else if f.kind == "stringArray" then .stringArray else if f.kind == "ipNetSlice" then .ipNetSlice else if f.kind == "boolSlice" then .boolSlice else .string }
 
 def toTCmd (c : CmdS) : TCmd :=
   let par : Option Nat := if c.parent < 0 then none else some (Int.toNat c.parent)
@@ -78,7 +79,7 @@ def toTCmdG (c : CmdS) : TCmdG :=
   let par : Option Nat := if c.parent < 0 then none else some (Int.toNat c.parent)
   let als : List Str := c.aliases.map (fun a => a.toList)
   let fls : List (Spec.PflagG.PFlagG × Bool) := c.flags.map (fun f => (toPFlagG f, f.persistent))
-  { name := c.name.toList, aliases := als, parent := par, interspersed := c.interspersed, noFlagParse := c.noFlagParse, flags := fls }
+  { name := c.name.toList, aliases := als, parent := par, interspersed := c.interspersed, noFlagParse := c.noFlagParse, whitelist := c.whitelist, flags := fls }
 
 def toTTreeG (cmds : Array CmdS) : TTreeG := cmds.map toTCmdG
 
@@ -240,7 +241,7 @@ def runParseOp (inp out : Json) : Json :=
         | none => []
       let states : List FlagState := vis.map (fun f =>
         { fdef := toFlagDef f, hidden := f.hidden, deprecated := f.deprecated, shortDeprecated := f.shortDeprecated,
-          changed := changed f.name, repeatable := f.kind == "stringSlice" || f.kind == "count" || f.kind == "stringArray" || f.kind == "ipNetSlice", groups := groupsOf f })
+          changed := changed f.name, repeatable := f.kind == "stringSlice" || f.kind == "count" || f.kind == "stringArray" || f.kind == "ipNetSlice" || f.kind == "boolSlice", groups := groupsOf f })
       let expected := ((states.filter (offered hiddenEnv states)).map (fun st =>
         let n := "--" ++ String.ofList st.fdef.name
         match n.splitOn "." with
@@ -286,7 +287,7 @@ def runParseOp (inp out : Json) : Json :=
         | none => []
       let states : List (FlagS × FlagState) := vis.map (fun f =>
         (f, { fdef := toFlagDef f, hidden := f.hidden, deprecated := f.deprecated, shortDeprecated := f.shortDeprecated,
-              changed := changed f.name, repeatable := f.kind == "stringSlice" || f.kind == "count" || f.kind == "stringArray" || f.kind == "ipNetSlice",
+              changed := changed f.name, repeatable := f.kind == "stringSlice" || f.kind == "count" || f.kind == "stringArray" || f.kind == "ipNetSlice" || f.kind == "boolSlice",
               groups := groupsOf f }))
       let all := states.map (·.2)
       let expected := (states.filter (fun (f, st) => offered hiddenEnv all st && f.short != "" && !f.shortDeprecated)).map (fun (f, _) => cur ++ f.short)
@@ -298,7 +299,7 @@ def runParseOp (inp out : Json) : Json :=
       else if srt expected == srt got then none
       else some s!"{words}: series rule model offers {srt expected}, real offers {srt got}"
   -- C01: the slot the traverse model picks vs the markers the real code serves
-  let forkTree := cmds.any (fun c => c.flags.any FlagS.fork)
+  let forkTree := cmds.any (fun c => c.whitelist || c.flags.any FlagS.fork)
   -- the general model (fork features); on trees without them the POSIX model, which the theorems are about, must agree with it
   let slotG := traverseSlotG (toTTreeG cmds) (cmds.size + 2) 0 (words.dropLast.map String.toList) cur.toList
   let slotP := traverseSlot (toTTree cmds) (cmds.size + 2) 0 (words.dropLast.map String.toList) cur.toList
@@ -336,6 +337,23 @@ def runParseOp (inp out : Json) : Json :=
       let msgOk := match slot with | .message => (jarr ex "messages").size > 0 | _ => true
       if srt e == srt realMarkers && msgOk then none
       else some s!"{words}: traverse model picks {repr slot} (markers {e}), real serves {realMarkers} messages {(jarr ex "messages").toList.map jstr}"
+  -- C07: sub-command names are offered exactly at the first positional word (as the program's parser counts) of a
+  -- command that has an available sub-command: the names and aliases of its non-deprecated, visible children
+  let subsDiff : Option String :=
+    if panic != "" || modelsDiff.isSome then none else
+    let offeredSubs := ((values.filter (fun v => (jstr (jget v "tag")).endsWith "commands")).map (fun v => jstr (jget v "value"))).filter
+      (fun v => v != "help" && v != "_carapace" && v != "completion")
+    let srt (l : List String) := sortBy (fun a b => Str.lt a.toList b.toList) l.eraseDups
+    match slotG with
+    | .positional c k =>
+      let kids := cmds.toList.filter (fun x => x.parent == (c : Int))
+      let avail := kids.any (fun x => !x.hidden && !x.deprecated)
+      let expected := if k == 0 && avail then (kids.filter (fun x => !x.deprecated && (!x.hidden || hiddenEnv))).flatMap (fun x => x.name :: x.aliases) else []
+      if srt expected == srt offeredSubs then none
+      else some s!"{words}: at positional {k} of command {c} the sub-command names {srt expected} are expected, real offers {srt offeredSubs}"
+    | .notFollowed => none
+    | _ => if offeredSubs.isEmpty then none else some s!"{words}: sub-command names {offeredSubs} offered in a slot that is not a positional"
+  let ruleDiff := match ruleDiff with | some d => some d | none => subsDiff
   let crash : List AFail := if panic != "" && !panic.startsWith "execute:" then
     [{ prop := "C18", code := "panic:traverse", detail := panic }, { prop := "C01", code := "panic", detail := panic }] else []
   let fails := crash ++ c01.take 2 ++ c01b ++ c07.take 2 ++ c07b.take 1 ++ subFails.take 1
